@@ -671,9 +671,14 @@ class Builtins:
         if isinstance(v, SNum):
             if z3.is_int(v.term):
                 return mk_num(v.term, True)
-            # round() is only modelled on integral values (the code guards with is_integer)
-            self.path.require(z3.IsInt(v.term), "builtin:round-on-integral")
-            return mk_num(z3.ToInt(v.term), True)
+            # round(float) -> nearest int, ties to even
+            x = v.term
+            r = self.path.fresh("round", sym.I)
+            rr = z3.ToReal(r)
+            self.path.assume(z3.And(rr >= x - z3.RealVal("1/2"), rr <= x + z3.RealVal("1/2"),
+                                    z3.Implies(z3.IsInt(x), rr == x),
+                                    z3.Implies(z3.Or(rr == x - z3.RealVal("1/2"), rr == x + z3.RealVal("1/2")), r % 2 == 0)))
+            return mk_num(r, True)
         raise Raise(self.make_exc("TypeError", f"round() argument {v!r}"), self.I.where())
 
     def b_sum(self, a, k):
